@@ -20,8 +20,8 @@ import random
 
 ID = "C01"
 DRIVER = "drv_c01"
-LEAN_TARGETS = ["PharmpyProofs.C01.Properties", "PharmpyProofs.C01.PropertiesAdvan", "drv_c01"]
-PROPERTIES = ["PharmpyProofs/C01/Properties.lean", "PharmpyProofs/C01/PropertiesAdvan.lean"]
+LEAN_TARGETS = ["PharmpyProofs.C01.Properties", "PharmpyProofs.C01.PropertiesAdvan", "PharmpyProofs.C01.PropertiesOmega", "drv_c01"]
+PROPERTIES = ["PharmpyProofs/C01/Properties.lean", "PharmpyProofs/C01/PropertiesAdvan.lean", "PharmpyProofs/C01/PropertiesOmega.lean"]
 LEAN_SOURCES = ["PharmpyModel/C01/*.lean", "PharmpyModel/Generated/Advan.lean", "PharmpyProofs/C01/*.lean", "Drivers/C01.lean"]
 TIME_LIMIT = {"quick": 900, "thorough": 3000}
 CASE_CPU_LIMIT = 60
@@ -236,7 +236,10 @@ def gen_cases(rng: random.Random, n: int, tier: str):
             out.append({"kind": "theta", "form": form, "low": rng.randint(-3, 0), "init": rng.randint(1, 4),
                         "up": rng.randint(5, 9), "n": rng.randint(2, 4), "fix": form in ("init", "init-xn") and rng.random() < 0.4, "seed": seed})
             continue
-        if r < 0.34:
+        if r < 0.09:
+            out.append(g_thetas_case(rng, seed))
+            continue
+        if r < 0.36:
             out.append(g_omega_case(rng, seed))
             continue
         safe = rng.random() < 0.5
@@ -312,6 +315,9 @@ def corpus_cases():
                                     {"t": "same", "size": False, "m": None}], "sigma": one, "seed": 33},
         # SAME(m): m further blocks
         {"kind": "omega", "omega": [blk(2, ["0.64", "-0.24", "0.58"]), {"t": "same", "size": True, "m": 3}], "sigma": one, "seed": 34},
+        # Fortran D exponent in $THETA
+        {"kind": "thetas", "items": [{"form": "init", "init": ["2", "2"], "low": "0", "up": "20", "n": 2, "fixpos": "none", "fixkw": "FIX", "sep": ",", "infkw": "INF"}],
+         "split": False, "dexp": True, "seed": 37},
         # commas between initial estimates
         {"kind": "omega", "comma": True, "omega": [blk(2, ["0.3", "0.01", "0.5"])], "sigma": one, "seed": 36},
         # BLOCK(n) VALUES(diag, odiag)
@@ -319,6 +325,9 @@ def corpus_cases():
     ]
     for a, t in ADVAN_ENTRIES:
         cs.append({"kind": "advan", "advan": a, "trans": t, "seed": 100 + len(cs)})
+    for a in ["ADVAN1", "ADVAN2", "ADVAN3", "ADVAN4", "ADVAN10", "ADVAN11", "ADVAN12"]:
+        cs.append({"kind": "advan", "advan": a, "trans": "TRANS1", "extras": "Sn", "seed": 100 + len(cs)})
+        cs.append({"kind": "advan", "advan": a, "trans": "TRANS1", "extras": "SC", "seed": 100 + len(cs)})
     return cs
 
 
@@ -1057,6 +1066,12 @@ def run_advan(case, drv):
     if basic == "none" or spec == "none":
         raise RuntimeError(f"no spec entry for {a} {t}")
     pk = "\n".join(f"{p} = THETA({i + 1})" for i, p in enumerate(basic))
+    extras = case.get("extras")
+    if extras:
+        # scaling, lag time and bioavailability of the default observation / dose compartments
+        so, sd_ = int(wiring[1]), int(wiring[3])
+        scal = f"S{so}" if extras == "Sn" else "SC"
+        pk += f"\n{scal} = THETA(1)*2\nALAG{sd_} = THETA(1)/3\nF{sd_} = THETA(1)/(THETA(1) + 1)"
     text = ("$PROBLEM c01\n$INPUT ID TIME DV AMT\n$DATA c01.csv IGNORE=@\n"
             f"$SUBROUTINE {a} {t}\n$PK\n{pk}\n$ERROR\nY = F + EPS(1)\n"
             "$THETA " + " ".join("(0,%d)" % (i + 1) for i in range(len(basic))) + "\n$OMEGA 0.1\n$SIGMA 1\n$ESTIMATION METHOD=1\n")
@@ -1120,6 +1135,15 @@ def run_advan(case, drv):
     fl = [s for s in model.statements.after_odes if isinstance(s, Assignment) and str(s.symbol) == "F"]
     inv = {v: kk for kk, v in cmap.items()}
     want = f"A_{inv[int(spec_obs)]}(t)"
+    if extras:
+        want = f"{want}/{scal}"
+        dc = comps[inv[int(spec_dose)]]
+        if str(dc.lag_time) != f"ALAG{sd_}" or str(dc.bioavailability) != f"F{sd_}":
+            mon.append({"cls": "advan-lag-bioavailability", "what": f"{a}: dose compartment {dc.name} has lag_time {dc.lag_time}, bioavailability "
+                        f"{dc.bioavailability}; the $PK defines ALAG{sd_} and F{sd_}"})
+        others = [c for nme, c in comps.items() if nme != dc.name and (str(c.lag_time) != "0" or str(c.bioavailability) != "1")]
+        if others:
+            mon.append({"cls": "advan-lag-bioavailability", "what": f"{a}: compartments {[c.name for c in others]} got a lag time / bioavailability that $PK does not define"})
     if not fl or str(fl[0].expression) != want:
         mon.append({"cls": "advan-default-observation-compartment", "what": f"{a}: F = {fl[0].expression if fl else None}, expected {want}"})
     if wiring[0] != wiring[1] or wiring[2] != wiring[3]:
@@ -1163,6 +1187,8 @@ def run_case(case, drv):
         return run_theta(case, drv)
     if kind == "omega":
         return run_omega(case, drv)
+    if kind == "thetas":
+        return run_thetas(case, drv)
     raise ValueError(kind)
 
 
@@ -1530,3 +1556,89 @@ def shrink_omega(case):
                 c = dict(case)
                 c[nme] = recs[:i] + [nr] + recs[i + 1:]
                 yield c
+
+
+# ================================================================ $THETA records, all documented forms
+
+TH_NUM = [("1", "1"), ("0.5", ".5"), ("0.01", "1E-2"), ("10", "1E1"), ("2.5", "2.5"), ("3", "3."), ("0.25", "2.5E-1"), ("7", "7")]
+
+
+def g_thetas_case(rng, seed):
+    items = []
+    for _ in range(rng.randint(1, 5)):
+        form = rng.choice(["init", "init", "paren-init", "low-init", "low-init-up", "ninf-init", "low-init-inf", "ninf-init-inf",
+                           "init-xn", "low-init-up-xn", "equal-bounds"])
+        init = rng.choice(TH_NUM)
+        fixpos = rng.choice(["none", "none", "none", "inside", "after"])
+        if form not in ("paren-init", "init-xn") and fixpos == "inside":
+            fixpos = "after"          # FIX inside parentheses with explicit bounds is a documented refusal
+        if form.endswith("xn") and fixpos == "after":
+            fixpos = "inside" if form == "init-xn" else "none"      # grammar: either xn or FIX after the parenthesis
+        if form == "equal-bounds":
+            fixpos = "none"
+        items.append({"form": form, "init": list(init), "low": rng.choice(["-2", "0", "-0.5", "0.001"]), "up": rng.choice(["20", "100", "1E2", "50.5"]),
+                      "n": rng.randint(2, 4), "fixpos": fixpos, "fixkw": rng.choice(KW["fix"]), "sep": rng.choice([",", ", ", " "]),
+                      "infkw": rng.choice(["INF", "inf", "1000000"])})
+    return {"kind": "thetas", "items": items, "split": rng.random() < 0.3, "dexp": False, "seed": seed}
+
+
+def run_thetas(case, drv):
+    k, mon, tags = [], [], []
+    inf = float("inf")
+    parts, want = [], []
+    for it in case["items"]:
+        v, sp = it["init"]
+        f = it["form"]
+        fx_in = f" {it['fixkw']}" if it["fixpos"] == "inside" else ""
+        fx_af = f" {it['fixkw']}" if it["fixpos"] == "after" else ""
+        sep = it["sep"]
+        if sep == " " and "inf" in f and it["infkw"] != "1000000":
+            sep = ","        # `(0 1 INF)`: the word INF after a blank is lexed with the parenthesis (loud); not generated
+        ninf = "-" + it["infkw"] if it["infkw"] != "1000000" else "-1000000"
+        lo, up = it["low"], it["up"]
+        fixed = it["fixpos"] != "none"
+        reps = 1
+        if f == "init":
+            s, b = f"{sp}{fx_af}", (-inf, inf)
+        elif f == "paren-init":
+            s, b = f"({sp}{fx_in}){fx_af}", (-inf, inf)
+        elif f == "low-init":
+            s, b = f"({lo}{sep}{sp}){fx_af}", (float(lo), inf)
+        elif f == "low-init-up":
+            s, b = f"({lo}{sep}{sp}{sep}{up}){fx_af}", (float(lo), float(up))
+        elif f == "ninf-init":
+            s, b = f"({ninf}{sep}{sp}){fx_af}", (-inf, inf)
+        elif f == "low-init-inf":
+            s, b = f"({lo}{sep}{sp}{sep}{it['infkw']}){fx_af}", (float(lo), inf)
+        elif f == "ninf-init-inf":
+            s, b = f"({ninf}{sep}{sp}{sep}{it['infkw']}){fx_af}", (-inf, inf)
+        elif f == "init-xn":
+            s, b, reps = f"({sp}{fx_in})x{it['n']}", (-inf, inf), it["n"]
+        elif f == "low-init-up-xn":
+            s, b, reps = f"({lo}{sep}{sp}{sep}{up})x{it['n']}", (float(lo), float(up)), it["n"]
+        elif f == "equal-bounds":
+            s, b, fixed = f"({sp}{sep}{sp}{sep}{sp})", (float(Fraction(v)), float(Fraction(v))), True     # implied FIX
+        else:
+            raise ValueError(f)
+        tags.append(f"theta:{f}" + ("+fix" if it["fixpos"] != "none" else ""))
+        parts.append(s)
+        want += [(float(Fraction(v)), b[0], b[1], fixed)] * reps
+    if case.get("dexp"):
+        parts.append("1D1")
+        want.append((10.0, -inf, inf, False))
+    if case["split"] and len(parts) > 1:
+        h = len(parts) // 2
+        th = "$THETA " + " ".join(parts[:h]) + "\n$THETA " + "\n ".join(parts[h:])
+    else:
+        th = "$THETA " + " ".join(parts)
+    text = f"$PROBLEM c01\n$INPUT ID TIME DV\n$DATA c01.csv IGNORE=@\n$PRED\nY = THETA(1) + ETA(1) + EPS(1)\n{th}\n$OMEGA 0.1\n$SIGMA 1\n$ESTIMATION METHOD=1\n"
+    try:
+        model = read_model_from_string(text)
+    except Exception as e:
+        mon.append({"cls": "theta-record-rejected", "what": f"`{th}` raises {type(e).__name__}: {str(e).splitlines()[0][:120]}"})
+        return {"k": k, "mon": mon, "tags": tags, "nontrivial": True}
+    got = [(float(p.init), float(p.lower), float(p.upper), bool(p.fix)) for p in model.parameters if p.name.startswith("THETA")]
+    if got != want:
+        cls = "theta-fortran-d-exponent" if (case.get("dexp") and got[:-1] == want[:-1]) else "theta-values"
+        mon.append({"cls": cls, "what": f"`{th}` read as {got}, documented meaning {want}"})
+    return {"k": k, "mon": mon, "tags": tags, "nontrivial": len(want) > 1}
